@@ -959,6 +959,6 @@ MANIFEST = dict(
          'exhausted and, after every step, the directory listing and file bytes of the blob directory are compared with a '
          'model of committed blob revisions, and reads in the working and in a fresh connection with the model.',
     note='real file system scratch directory (blob files are io.FileIO); contents concrete; programs of <= 3 (quick) / 4 steps; '
-         'pack to "now" only; undo of the newest transaction only; ZEO/ClientStorage blob caches not covered.',
+         'directed families of up to 10 steps; storages: FileStorage+blob_dir, BlobStorage over MappingStorage, BlobStorage over FileStorage; pack to now or to an earlier boundary; undo of the newest or the second-newest transaction; ZEO/ClientStorage blob caches not covered.',
     design_ref='DESIGN.md section 4, C13',
 )
